@@ -11,6 +11,7 @@ import (
 
 	"github.com/creachadair/jrpc2"
 	"github.com/creachadair/jrpc2/channel"
+	"github.com/creachadair/jrpc2/jhttp"
 	"verif/vs"
 )
 
@@ -944,8 +945,139 @@ func c13Parse(maxLen int) *Scenario {
 	}
 }
 
+// c13Bridge: replies emitted by a jhttp.Bridge. The handler echoes its params, so each reply
+// must parse back to the posting caller's own id and a result JSON-equal to the params, for
+// single calls and for batches with notifications before / between / after the calls.
+func c13Bridge() *Scenario {
+	return &Scenario{
+		Name:   "bridge replies: echo through jhttp.Bridge, single and batch bodies",
+		Params: map[string]any{"values": len(c13Values()), "ids": 10, "shapes": []string{"call", "[call]", "[note,call]", "[call,note,call]", "[call,call,note]", "[unknown,call]"}},
+		Seq: func(r *SeqRun) {
+			vals := c13Values()
+			ids := []string{"7", "-3", "0", "1.5", "1e3", `"s"`, `""`, `"1"`, `"é\n"`, `" "`}
+			type exp struct{ id, result string }
+			type body struct {
+				text string
+				want []exp
+				one  bool
+			}
+			var bodies []body
+			mk := func(id, params string) string {
+				if id == "" {
+					return `{"jsonrpc":"2.0","method":"echo","params":` + params + `}`
+				}
+				return `{"jsonrpc":"2.0","id":` + id + `,"method":"echo","params":` + params + `}`
+			}
+			for i, v := range vals {
+				ps := normJSON(v)
+				if !isStructured(v) {
+					ps = "[" + ps + "]"
+				}
+				a, b := ids[i%len(ids)], ids[(i+3)%len(ids)]
+				note := mk("", `["n"]`)
+				bodies = append(bodies,
+					body{mk(a, ps), []exp{{a, ps}}, true},
+					body{"[" + mk(a, ps) + "]", []exp{{a, ps}}, false},
+					body{"[" + note + "," + mk(a, ps) + "]", []exp{{a, ps}}, false},
+					body{"[" + mk(a, ps) + "," + note + "," + mk(b, `["second"]`) + "]", []exp{{a, ps}, {b, `["second"]`}}, false},
+					body{"[" + mk(b, `["first"]`) + "," + mk(a, ps) + "," + note + "]", []exp{{b, `["first"]`}, {a, ps}}, false},
+					body{`[{"jsonrpc":"2.0","id":` + b + `,"method":"nope"},` + mk(a, ps) + "]", []exp{{b, ""}, {a, ps}}, false},
+				)
+			}
+			for start := 0; start < len(bodies); start += 60 {
+				if r.Expired() {
+					return
+				}
+				end := start + 60
+				if end > len(bodies) {
+					end = len(bodies)
+				}
+				chunk := bodies[start:end]
+				x := vs.Run(nil, func() {
+					hd := func(ctx context.Context, req *jrpc2.Request) (any, error) {
+						var p json.RawMessage
+						req.UnmarshalParams(&p)
+						return p, nil
+					}
+					br := jhttp.NewBridge(assignerFunc(func(ctx context.Context, m string) jrpc2.Handler {
+						if m == "echo" {
+							return hd
+						}
+						return nil
+					}), nil)
+					defer br.Close()
+					for _, bd := range chunk {
+						res := doHTTP(br, "POST", "application/json", bd.text)
+						vs.AwaitQuiescence()
+						r.Case(fmt.Sprintf("bridge/%d/%v", len(bd.want), bd.one), true)
+						if res.Status != 200 {
+							r.Fail("C13.R3", bd.text, fmt.Sprintf("bridge status %d body %q", res.Status, res.Body), "")
+							continue
+						}
+						rec := []byte(strings.TrimRight(res.Body, "\n"))
+						var w1 *wireWant
+						if bd.one {
+							w1 = &wireWant{Kind: "response", ID: bd.want[0].id, Result: bd.want[0].result}
+						}
+						for _, vi := range wireRules(rec, w1) {
+							r.Fail(vi.Rule, bd.text, vi.Msg, "")
+						}
+						val, perr := strictParse(rec)
+						if perr != "" {
+							continue // reported by wireRules
+						}
+						var members []any
+						switch t := val.(type) {
+						case []any:
+							members = t
+						default:
+							members = []any{t}
+						}
+						if (len(members) == 1 && bd.one) != bd.one || len(members) != len(bd.want) {
+							r.Fail("C13.R3", bd.text, fmt.Sprintf("%d reply members for %d calls: %s", len(members), len(bd.want), rec), "")
+							continue
+						}
+						// each expected (id, result) must be matched by exactly one member
+						used := make([]bool, len(members))
+						for _, w := range bd.want {
+							found := false
+							for j, mm := range members {
+								m, ok := mm.(map[string]any)
+								if !ok || used[j] {
+									continue
+								}
+								idv, has := m["id"]
+								if !has || !sameJSON(normJSON(idv), w.id) {
+									continue
+								}
+								if w.result == "" {
+									if _, isErr := m["error"]; !isErr {
+										continue
+									}
+								} else if rv, ok := m["result"]; !ok || !sameJSON(normJSON(rv), w.result) {
+									continue
+								}
+								used[j], found = true, true
+								break
+							}
+							if !found {
+								r.Fail("C13.R3", bd.text, fmt.Sprintf("no reply member parses back to id %s with the outcome of that call (%s): %s", w.id, w.result, rec), "")
+							}
+						}
+					}
+				})
+				r.Calls(x.Steps)
+				if x.Outcome != "ok" {
+					r.Fail("G1", fmt.Sprintf("bodies %d..%d", start, end), "bridge run ended with "+x.Outcome+" "+firstLine(x.Detail), "")
+				}
+			}
+			r.Sample(map[string]any{"body": `[{"jsonrpc":"2.0","method":"echo","params":["n"]},{"jsonrpc":"2.0","id":"é\n","method":"echo","params":{"k\n":[null]}}]`})
+		},
+	}
+}
+
 func c13Scenarios(tier string) []*Scenario {
-	out := []*Scenario{c13Client(c13Methods(), "every method name of <=2 runes over 14 special runes x values of depth<=2 and white-space variants of raw params"), c13Server(), c13Marshal()}
+	out := []*Scenario{c13Client(c13Methods(), "every method name of <=2 runes over 14 special runes x values of depth<=2 and white-space variants of raw params"), c13Server(), c13Marshal(), c13Bridge()}
 	if tier == "quick" {
 		out = append(out, c13Parse(4))
 		return out
